@@ -275,7 +275,7 @@ func (g *gen) genStatement(o string, typ types.Type) error {
 		p.P("return h")
 		return nil
 	}
-	return fmt.Errorf("unsupported type: %#v", typ)
+	return fmt.Errorf("unsupported type: %s", g.TypeString(typ))
 }
 
 func wrap(value string) string {
@@ -399,5 +399,5 @@ func (g *gen) value(fieldName string, fieldType types.Type) (string, error) {
 		return fmt.Sprintf("%s(%s)", g.GetFuncName(fieldType), fieldName), nil
 	}
 	// *Chan, *Tuple, *Signature, *Interface, *types.Basic.Kind() == types.UntypedNil, *Struct
-	return "", fmt.Errorf("unsupported type %#v", fieldType)
+	return "", fmt.Errorf("unsupported type %s", g.TypeString(fieldType))
 }
